@@ -412,6 +412,24 @@ func (ms *Modules) Process() []error {
 	ms.nsMu.Lock()
 	ms.byNS = map[string]*Module{}
 	ms.nsMu.Unlock()
+	// What an earlier run (or a ToEntry call before this one) resolved was
+	// resolved against other modules, links and identities.
+	ms.typeDict.mu.Lock()
+	ms.typeDict.gen++
+	ms.typeDict.mu.Unlock()
+	for _, mm := range []map[string]*Module{ms.Modules, ms.SubModules} {
+		for _, m := range mm {
+			for _, i := range m.Include {
+				i.Module = nil
+			}
+			for _, i := range m.Import {
+				i.Module = nil
+			}
+		}
+	}
+	ms.typeDict.identities.mu.Lock()
+	ms.typeDict.identities.dict = map[string]resolvedIdentity{}
+	ms.typeDict.identities.mu.Unlock()
 
 	errs := ms.process()
 	if len(errs) > 0 {
